@@ -134,7 +134,8 @@ structure Column where
 /-- `Column.flexible`: `self.ratio is not None`. -/
 def Column.flexible (c : Column) : Bool := c.ratio.isSome
 
-/-- Code-variant flags (`true` = rich 9.10.0 as it stands, `false` = minimally repaired).
+/-- Code-variant flags (`true` = rich 9.10.0 as found, `false` = minimally repaired; all six are repaired in /repo:
+`fix:` commits dd342b5, c798468, b5d172f, 1d61bac, ab98098, f955c6c, in the order of the fields).
 * `leadingRepeat`: `_render` emits `get_row(widths, "mid") * leading` as ONE line (F16);
   repaired: `leading` separate blank separator lines.
 * `minWidthCapsExpand`: in `_calculate_column_widths` the pad target is `min(min_width - extra, max_width)`
@@ -153,8 +154,8 @@ def Column.flexible (c : Column) : Bool := c.ratio.isSome
   sees the pre-re-measure total (`= max_width`), so an expanding table whose columns shrank on the re-measure (a ratio
   column that was handed its flex minimum, a nested renderable) is left narrower than asked; repaired: `table_width = sum(widths)`
   after the re-measure.
-(`Flags.repaired` repairs the first three only — the state other properties' witnesses were written against;
-`Flags.allRepaired` repairs all five.) -/
+(`Flags.today` — the name dates from before the fixes — is rich 9.10.0 as found; `Flags.repaired` repairs the first three only —
+the state other properties' witnesses were written against; `Flags.allRepaired` repairs all six and is what /repo contains now.) -/
 structure Flags where
   leadingRepeat : Bool := true
   minWidthCapsExpand : Bool := true
